@@ -426,10 +426,10 @@ def yaml_cases(r, n):
 # tokens that cannot follow a complete term
 AFTER_TERM = ["1", "1.5e3", '"s"', '"あ"', "$x", "$__loc__", "@base64", "foo", "foo::bar", "$m::v", "..", "if", "def", "reduce",
               "foreach", "try", "label", "import", "include", "null", "true", "false", "{", "☆", "★", "あ", "&", "\\", "^", "~", "`",
-              "1a", "1.2.3", "0x1", "1e", "1e+", ('"a\\qb"', 2), ('"\\u12x4"', 1), "'"]
+              "1a", "1.2.3", "0x1", "1e", "1e+", ".5a", ".1e+", ".2.3", ('"a\\qb"', 2), ('"\\u12x4"', 1), "'"]
 # tokens that cannot follow an operator that wants a term
 AFTER_OP = [")", "]", "}", "then", "elif", "else", "end", "as", "catch", "and", "or", "|=", "=", "+=", "-=", "*=", "/=", "%=", "//=",
-            "==", "!=", "<", "<=", ">", ">=", "?//", "//", ",", "|", ";", ":", "*", "/", "%", "?", "☆", "😀", "&", "1a", "1.e5x", ('"a\\qb"', 2)]
+            "==", "!=", "<", "<=", ">", ">=", "?//", "//", ",", "|", ";", ":", "*", "/", "%", "?", "☆", "😀", "&", "1a", "1.e5x", ".5a", ".7.", ('"a\\qb"', 2)]
 STRING_START = ['"abc\\(1)"', '"\\(.)"', '"あ\\(1)x"']
 PREFIX_TERM = [".a", ".a | .b", "[.a, 1]", '"あいう" | .c', "{a: 1}", ".[0]", "(.a)", "1 as $x | $x", '"é\\(1)z"', "def f: 1; f", "# c\n.a"]
 PREFIX_OP = [".a |", ".a,", "1 +", "[1,", "{a:", "(", "if .a then", ".a as $x |", "reduce .[] as $x (0;", ".a //", ".a ==", "def f:", "try", '"x" |']
